@@ -58,9 +58,9 @@ Run/RunC08.vos Run/RunC08.vok Run/RunC08.required_vos: Run/RunC08.v Base.vos Pri
 Properties/C02.vo Properties/C02.glob Properties/C02.v.beautified Properties/C02.required_vo: Properties/C02.v Base.vo Prim.vo
 Properties/C02.vio: Properties/C02.v Base.vio Prim.vio
 Properties/C02.vos Properties/C02.vok Properties/C02.required_vos: Properties/C02.v Base.vos Prim.vos
-Properties/C03.vo Properties/C03.glob Properties/C03.v.beautified Properties/C03.required_vo: Properties/C03.v Base.vo Prim.vo
-Properties/C03.vio: Properties/C03.v Base.vio Prim.vio
-Properties/C03.vos Properties/C03.vok Properties/C03.required_vos: Properties/C03.v Base.vos Prim.vos
+Properties/C03.vo Properties/C03.glob Properties/C03.v.beautified Properties/C03.required_vo: Properties/C03.v Base.vo Prim.vo Model/Digit.vo Model/Core.vo Model/Shift.vo Model/AddSub.vo Model/Mul.vo Model/Div.vo Proofs/DivAux.vo Proofs/DivValue.vo Proofs/DivSpec.vo Proofs/DivDigit.vo Proofs/DivKnuth.vo Proofs/Div.vo Proofs/SignedAux.vo Proofs/DivUnsignedWrap.vo Proofs/DivSigned.vo Proofs/DivFinal.vo
+Properties/C03.vio: Properties/C03.v Base.vio Prim.vio Model/Digit.vio Model/Core.vio Model/Shift.vio Model/AddSub.vio Model/Mul.vio Model/Div.vio Proofs/DivAux.vio Proofs/DivValue.vio Proofs/DivSpec.vio Proofs/DivDigit.vio Proofs/DivKnuth.vio Proofs/Div.vio Proofs/SignedAux.vio Proofs/DivUnsignedWrap.vio Proofs/DivSigned.vio Proofs/DivFinal.vio
+Properties/C03.vos Properties/C03.vok Properties/C03.required_vos: Properties/C03.v Base.vos Prim.vos Model/Digit.vos Model/Core.vos Model/Shift.vos Model/AddSub.vos Model/Mul.vos Model/Div.vos Proofs/DivAux.vos Proofs/DivValue.vos Proofs/DivSpec.vos Proofs/DivDigit.vos Proofs/DivKnuth.vos Proofs/Div.vos Proofs/SignedAux.vos Proofs/DivUnsignedWrap.vos Proofs/DivSigned.vos Proofs/DivFinal.vos
 Properties/C05.vo Properties/C05.glob Properties/C05.v.beautified Properties/C05.required_vo: Properties/C05.v Base.vo Prim.vo
 Properties/C05.vio: Properties/C05.v Base.vio Prim.vio
 Properties/C05.vos Properties/C05.vok Properties/C05.required_vos: Properties/C05.v Base.vos Prim.vos
@@ -73,3 +73,33 @@ Properties/C07.vos Properties/C07.vok Properties/C07.required_vos: Properties/C0
 Properties/C08.vo Properties/C08.glob Properties/C08.v.beautified Properties/C08.required_vo: Properties/C08.v Base.vo Prim.vo
 Properties/C08.vio: Properties/C08.v Base.vio Prim.vio
 Properties/C08.vos Properties/C08.vok Properties/C08.required_vos: Properties/C08.v Base.vos Prim.vos
+Proofs/DivAux.vo Proofs/DivAux.glob Proofs/DivAux.v.beautified Proofs/DivAux.required_vo: Proofs/DivAux.v Base.vo Prim.vo Model/Digit.vo Model/Core.vo Model/Shift.vo Model/AddSub.vo
+Proofs/DivAux.vio: Proofs/DivAux.v Base.vio Prim.vio Model/Digit.vio Model/Core.vio Model/Shift.vio Model/AddSub.vio
+Proofs/DivAux.vos Proofs/DivAux.vok Proofs/DivAux.required_vos: Proofs/DivAux.v Base.vos Prim.vos Model/Digit.vos Model/Core.vos Model/Shift.vos Model/AddSub.vos
+Proofs/DivSpec.vo Proofs/DivSpec.glob Proofs/DivSpec.v.beautified Proofs/DivSpec.required_vo: Proofs/DivSpec.v Base.vo Prim.vo Model/Digit.vo Model/Core.vo Model/Shift.vo Model/AddSub.vo Model/Mul.vo Model/Div.vo
+Proofs/DivSpec.vio: Proofs/DivSpec.v Base.vio Prim.vio Model/Digit.vio Model/Core.vio Model/Shift.vio Model/AddSub.vio Model/Mul.vio Model/Div.vio
+Proofs/DivSpec.vos Proofs/DivSpec.vok Proofs/DivSpec.required_vos: Proofs/DivSpec.v Base.vos Prim.vos Model/Digit.vos Model/Core.vos Model/Shift.vos Model/AddSub.vos Model/Mul.vos Model/Div.vos
+Proofs/DivValue.vo Proofs/DivValue.glob Proofs/DivValue.v.beautified Proofs/DivValue.required_vo: Proofs/DivValue.v 
+Proofs/DivValue.vio: Proofs/DivValue.v 
+Proofs/DivValue.vos Proofs/DivValue.vok Proofs/DivValue.required_vos: Proofs/DivValue.v 
+Proofs/DivDigit.vo Proofs/DivDigit.glob Proofs/DivDigit.v.beautified Proofs/DivDigit.required_vo: Proofs/DivDigit.v Base.vo Prim.vo Model/Digit.vo Model/Core.vo Model/Shift.vo Model/AddSub.vo Model/Mul.vo Model/Div.vo Proofs/DivAux.vo
+Proofs/DivDigit.vio: Proofs/DivDigit.v Base.vio Prim.vio Model/Digit.vio Model/Core.vio Model/Shift.vio Model/AddSub.vio Model/Mul.vio Model/Div.vio Proofs/DivAux.vio
+Proofs/DivDigit.vos Proofs/DivDigit.vok Proofs/DivDigit.required_vos: Proofs/DivDigit.v Base.vos Prim.vos Model/Digit.vos Model/Core.vos Model/Shift.vos Model/AddSub.vos Model/Mul.vos Model/Div.vos Proofs/DivAux.vos
+Proofs/DivKnuth.vo Proofs/DivKnuth.glob Proofs/DivKnuth.v.beautified Proofs/DivKnuth.required_vo: Proofs/DivKnuth.v Base.vo Prim.vo Model/Digit.vo Model/Core.vo Model/Shift.vo Model/AddSub.vo Model/Mul.vo Model/Div.vo Proofs/DivAux.vo Proofs/DivValue.vo Proofs/DivDigit.vo
+Proofs/DivKnuth.vio: Proofs/DivKnuth.v Base.vio Prim.vio Model/Digit.vio Model/Core.vio Model/Shift.vio Model/AddSub.vio Model/Mul.vio Model/Div.vio Proofs/DivAux.vio Proofs/DivValue.vio Proofs/DivDigit.vio
+Proofs/DivKnuth.vos Proofs/DivKnuth.vok Proofs/DivKnuth.required_vos: Proofs/DivKnuth.v Base.vos Prim.vos Model/Digit.vos Model/Core.vos Model/Shift.vos Model/AddSub.vos Model/Mul.vos Model/Div.vos Proofs/DivAux.vos Proofs/DivValue.vos Proofs/DivDigit.vos
+Proofs/Div.vo Proofs/Div.glob Proofs/Div.v.beautified Proofs/Div.required_vo: Proofs/Div.v Base.vo Prim.vo Model/Digit.vo Model/Core.vo Model/Shift.vo Model/AddSub.vo Model/Mul.vo Model/Div.vo Proofs/DivAux.vo Proofs/DivValue.vo Proofs/DivDigit.vo Proofs/DivKnuth.vo Proofs/DivSpec.vo
+Proofs/Div.vio: Proofs/Div.v Base.vio Prim.vio Model/Digit.vio Model/Core.vio Model/Shift.vio Model/AddSub.vio Model/Mul.vio Model/Div.vio Proofs/DivAux.vio Proofs/DivValue.vio Proofs/DivDigit.vio Proofs/DivKnuth.vio Proofs/DivSpec.vio
+Proofs/Div.vos Proofs/Div.vok Proofs/Div.required_vos: Proofs/Div.v Base.vos Prim.vos Model/Digit.vos Model/Core.vos Model/Shift.vos Model/AddSub.vos Model/Mul.vos Model/Div.vos Proofs/DivAux.vos Proofs/DivValue.vos Proofs/DivDigit.vos Proofs/DivKnuth.vos Proofs/DivSpec.vos
+Proofs/DivFinal.vo Proofs/DivFinal.glob Proofs/DivFinal.v.beautified Proofs/DivFinal.required_vo: Proofs/DivFinal.v Base.vo Prim.vo Model/Digit.vo Model/Core.vo Model/Shift.vo Model/AddSub.vo Model/Mul.vo Model/Div.vo Proofs/DivAux.vo Proofs/DivSpec.vo Proofs/DivDigit.vo Proofs/Div.vo Proofs/SignedAux.vo Proofs/DivUnsignedWrap.vo Proofs/DivSigned.vo
+Proofs/DivFinal.vio: Proofs/DivFinal.v Base.vio Prim.vio Model/Digit.vio Model/Core.vio Model/Shift.vio Model/AddSub.vio Model/Mul.vio Model/Div.vio Proofs/DivAux.vio Proofs/DivSpec.vio Proofs/DivDigit.vio Proofs/Div.vio Proofs/SignedAux.vio Proofs/DivUnsignedWrap.vio Proofs/DivSigned.vio
+Proofs/DivFinal.vos Proofs/DivFinal.vok Proofs/DivFinal.required_vos: Proofs/DivFinal.v Base.vos Prim.vos Model/Digit.vos Model/Core.vos Model/Shift.vos Model/AddSub.vos Model/Mul.vos Model/Div.vos Proofs/DivAux.vos Proofs/DivSpec.vos Proofs/DivDigit.vos Proofs/Div.vos Proofs/SignedAux.vos Proofs/DivUnsignedWrap.vos Proofs/DivSigned.vos
+Proofs/SignedAux.vo Proofs/SignedAux.glob Proofs/SignedAux.v.beautified Proofs/SignedAux.required_vo: Proofs/SignedAux.v Base.vo Prim.vo Model/Digit.vo Model/Core.vo Model/Shift.vo Model/AddSub.vo Proofs/DivAux.vo
+Proofs/SignedAux.vio: Proofs/SignedAux.v Base.vio Prim.vio Model/Digit.vio Model/Core.vio Model/Shift.vio Model/AddSub.vio Proofs/DivAux.vio
+Proofs/SignedAux.vos Proofs/SignedAux.vok Proofs/SignedAux.required_vos: Proofs/SignedAux.v Base.vos Prim.vos Model/Digit.vos Model/Core.vos Model/Shift.vos Model/AddSub.vos Proofs/DivAux.vos
+Proofs/DivUnsignedWrap.vo Proofs/DivUnsignedWrap.glob Proofs/DivUnsignedWrap.v.beautified Proofs/DivUnsignedWrap.required_vo: Proofs/DivUnsignedWrap.v Base.vo Prim.vo Model/Digit.vo Model/Core.vo Model/Shift.vo Model/AddSub.vo Model/Mul.vo Model/Div.vo Proofs/DivAux.vo Proofs/DivSpec.vo Proofs/SignedAux.vo
+Proofs/DivUnsignedWrap.vio: Proofs/DivUnsignedWrap.v Base.vio Prim.vio Model/Digit.vio Model/Core.vio Model/Shift.vio Model/AddSub.vio Model/Mul.vio Model/Div.vio Proofs/DivAux.vio Proofs/DivSpec.vio Proofs/SignedAux.vio
+Proofs/DivUnsignedWrap.vos Proofs/DivUnsignedWrap.vok Proofs/DivUnsignedWrap.required_vos: Proofs/DivUnsignedWrap.v Base.vos Prim.vos Model/Digit.vos Model/Core.vos Model/Shift.vos Model/AddSub.vos Model/Mul.vos Model/Div.vos Proofs/DivAux.vos Proofs/DivSpec.vos Proofs/SignedAux.vos
+Proofs/DivSigned.vo Proofs/DivSigned.glob Proofs/DivSigned.v.beautified Proofs/DivSigned.required_vo: Proofs/DivSigned.v Base.vo Prim.vo Model/Digit.vo Model/Core.vo Model/Shift.vo Model/AddSub.vo Model/Mul.vo Model/Div.vo Proofs/DivAux.vo Proofs/DivSpec.vo Proofs/SignedAux.vo Proofs/DivUnsignedWrap.vo
+Proofs/DivSigned.vio: Proofs/DivSigned.v Base.vio Prim.vio Model/Digit.vio Model/Core.vio Model/Shift.vio Model/AddSub.vio Model/Mul.vio Model/Div.vio Proofs/DivAux.vio Proofs/DivSpec.vio Proofs/SignedAux.vio Proofs/DivUnsignedWrap.vio
+Proofs/DivSigned.vos Proofs/DivSigned.vok Proofs/DivSigned.required_vos: Proofs/DivSigned.v Base.vos Prim.vos Model/Digit.vos Model/Core.vos Model/Shift.vos Model/AddSub.vos Model/Mul.vos Model/Div.vos Proofs/DivAux.vos Proofs/DivSpec.vos Proofs/SignedAux.vos Proofs/DivUnsignedWrap.vos
